@@ -45,6 +45,11 @@ def OwnSt.neighboursAlive (st : OwnSt K E) (k : K) : Bool :=
 def OwnSt.noDangling (st : OwnSt K E) : Bool :=
   st.created.all fun k => !st.alive k || st.neighboursAlive k
 
+/-- edge operations and queries made through node handles: none of them creates or drops a handle -/
+inductive StoreOp (E : Type) where
+  | tryConnect (e : E) | disconnect | isolate | query
+  deriving Repr
+
 inductive OwnOp (K E : Type) where
   | new (slot : Nat) (k : K)                 -- `Node::new`
   | clone (src dst : Nat)                    -- clone whatever `src` holds into `dst`
@@ -57,9 +62,14 @@ inductive OwnOp (K E : Type) where
   | pathTo (a : Nat) (t : K) (dst : Nat)     -- `bfs().target(t).search_path()`
   | searchTo (a : Nat) (t : K) (dst : Nat)   -- `dfs().target(t).search()`
   | orderOf (a dst : Nat)                    -- `preorder().search_nodes()`
+  | storeOp (a b : Nat) (m : StoreOp E)      -- `try_connect` / `disconnect` / `isolate` / `is_connected` through handles
+  | find (a : Nat) (k : K) (dst : Nat)       -- `find_outbound(k)` / `find_adjacent(k)`: a handle to a neighbour
+  | pathOf (kind : Kind) (cyc : Bool) (a : Nat) (t : K) (dst : Nat)  -- `search_path()` / `search_cycle()` of bfs and dfs
+  | orderPost (a dst : Nat)                  -- `postorder().search_nodes()`
 
 /-- `adjSel` selects the list a node iterates (outgoing for directed, `out ++ inn` for undirected) -/
-def OwnSt.step (adjSel : Store K E → K → List (K × E)) (st : OwnSt K E) : OwnOp K E → Option (OwnSt K E)
+def OwnSt.step (adjSel : Store K E → K → List (K × E)) (mutF : Store K E → K → K → StoreOp E → Store K E)
+    (st : OwnSt K E) : OwnOp K E → Option (OwnSt K E)
   | .new i k => if st.created.contains k then none else
       some ({ st with created := st.created ++ [k] }.setSlot i [k]).settle
   | .clone a b => some (st.setSlot b (st.slot a)).settle
@@ -109,8 +119,39 @@ def OwnSt.step (adjSel : Store K E → K → List (K × E)) (st : OwnSt K E) : O
       | none => none
     | _ => none
 
+  | .storeOp a b m =>
+    -- whatever the operation does to the adjacency lists (`mutF`), no slot changes and nothing is released
+    match st.slot a, st.slot b with
+    | [u], [v] => if !(st.neighboursAlive u && st.neighboursAlive v) then none else some { st with s := mutF st.s u v m }
+    | _, _ => none
+  | .find a k d =>
+    match st.slot a with
+    | [u] =>
+      if !st.neighboursAlive u then none else
+      some (st.setSlot d (if (adjSel st.s u).any (fun p => p.1 = k) then [k] else [])).settle
+    | _ => none
+  | .pathOf kind cyc a t d =>
+    match st.slot a with
+    | [u] =>
+      if !st.noDangling then none else
+      if kind = .pfsMin || kind = .pfsMax then none else
+      match searchPath (adjSel st.s) (fun _ _ _ => true) (fun _ => 0) kind u (if cyc then none else some t) cyc (st.created.length + 2) with
+      | some (some p, _) => some (st.setSlot d (p.flatMap fun x => [x.1, x.2.1])).settle
+      | some (none, _) => some (st.setSlot d []).settle
+      | none => none
+    | _ => none
+  | .orderPost a d =>
+    match st.slot a with
+    | [u] =>
+      if !st.noDangling then none else
+      match orderNodes (adjSel st.s) (fun _ _ _ => true) true u (st.created.length + 2) with
+      | some (ns, _) => some (st.setSlot d ns).settle
+      | none => none
+    | _ => none
+
 /-- run a history; an operation that is refused leaves the state unchanged -/
-def OwnSt.run (adjSel : Store K E → K → List (K × E)) (ops : List (OwnOp K E)) : OwnSt K E :=
-  ops.foldl (fun st op => (st.step adjSel op).getD st) {}
+def OwnSt.run (adjSel : Store K E → K → List (K × E)) (mutF : Store K E → K → K → StoreOp E → Store K E)
+    (ops : List (OwnOp K E)) : OwnSt K E :=
+  ops.foldl (fun st op => (st.step adjSel mutF op).getD st) {}
 
 end G
